@@ -24,7 +24,13 @@ type Parser struct {
 
 	// operandStack temporarily holds operands until we hit an operator
 	operandStack []core.Object
+
+	// depth is the current nesting depth of arrays and dictionaries
+	depth int
 }
+
+// maxNestingDepth bounds how deeply arrays and dictionaries may be nested.
+const maxNestingDepth = 500
 
 // NewParser creates a new content stream parser for the given data.
 func NewParser(data []byte) *Parser {
@@ -420,6 +426,11 @@ func (p *Parser) parseArray() (core.Object, error) {
 		return nil, fmt.Errorf("array must start with '['")
 	}
 	p.pos++ // skip '['
+	if p.depth >= maxNestingDepth {
+		return nil, fmt.Errorf("operands nested deeper than %d levels", maxNestingDepth)
+	}
+	p.depth++
+	defer func() { p.depth-- }()
 
 	var arr core.Array
 
@@ -452,6 +463,11 @@ func (p *Parser) parseDict() (core.Object, error) {
 		return nil, fmt.Errorf("dictionary must start with '<<'")
 	}
 	p.pos += 2 // skip '<<'
+	if p.depth >= maxNestingDepth {
+		return nil, fmt.Errorf("operands nested deeper than %d levels", maxNestingDepth)
+	}
+	p.depth++
+	defer func() { p.depth-- }()
 
 	dict := make(core.Dict)
 
